@@ -107,7 +107,13 @@ def bind(fn, patterns: List[str], what: str = "", skipped: Optional[List[str]] =
     (the rules then see the source's own names and decide for themselves); without it that is an analysis error."""
     hs = [_squash(h) for h in headers(fn)]
     bound: Dict[str, str] = {}
+    poisoned = set()  # roles whose defining pattern was skipped: later patterns mentioning them are skipped as well
     for p in patterns:
+        mentioned = set(re.findall(r"\$(\w+)", p)) - {"_"}
+        if skipped is not None and (mentioned & poisoned):
+            poisoned |= {r_ for r_ in mentioned if r_ not in bound}
+            skipped.append(f"`{p}`: depends on an unbound role")
+            continue
         rx = _compile(p, bound)
         hits = []
         for h in hs:
@@ -116,8 +122,11 @@ def bind(fn, patterns: List[str], what: str = "", skipped: Optional[List[str]] =
                 d = m.groupdict()
                 if d not in hits:
                     hits.append(d)
+        if len(hits) == 1 and skipped is not None and (set(hits[0].values()) & set(bound.values())):
+            hits = []  # a local cannot play two roles
         if len(hits) != 1 and skipped is not None:
             skipped.append(f"`{p}`: {len(hits)} matches")
+            poisoned |= {r_ for r_ in mentioned if r_ not in bound}
             continue
         if len(hits) != 1:
             raise AnalysisError(f"{what or fn.name}: role pattern `{p}` matches {len(hits)} statement shapes (expected 1); the function no longer has the modelled shape")
